@@ -104,7 +104,7 @@ def handshake(role):
     return [b'OK 0123456789abcdef\r\n']
 
 
-def build_stream(ds, role, kind):
+def build_stream(ds, role, kind, tier='quick'):
     """returns (list of handshake writes, list of reference messages)"""
     msgs = []
     if kind == 'flood':
@@ -115,7 +115,7 @@ def build_stream(ds, role, kind):
             m.encode()
             msgs.append(m)
         return handshake(role), msgs
-    n = 1 + ds.geometric(11, 0.25) if kind == 'short' else 1 + ds.choose(40)
+    n = 1 + ds.geometric(11, 0.25) if kind == 'short' else 1 + ds.choose(40 * (4 if tier == 'thorough' else 1))
     serial = 1 + ds.choose(2**31)
     for i in range(n):
         if ds.flag(0.08):
@@ -183,7 +183,7 @@ def scenario(ctx):
         kind = ds.pickw([('normal', 10), ('short', 6), ('flood', 0.12)])
     ctx.config.update(role=role, kind=kind)
     ctx.seams.set_linux(False)
-    hs, msgs = build_stream(sds, role, kind)
+    hs, msgs = build_stream(sds, role, kind, ctx.tier)
     record = {'raw': [], 'typed': []}
     node = Node('rx', serial_start=1 + sds.choose(2**31))
     proto = make_receiver(role, record)
